@@ -54,7 +54,9 @@ def moltype(draw, name, resdefs, max_res=8, shapes=("linear", "linear", "branche
         edges = [[draw(st.integers(max(0, i - 3), i - 1)), i] for i in range(1, nres)]
     else:
         edges = [[i, i + 1] for i in range(nres - 1)] + [[nres - 1, 0]]
-    return {"name": name, "residues": residues, "res_edges": edges, "shape": shape}
+    # the exclusion distance of the molecule type is an atom-level quantity; residue building does not depend on it
+    return {"name": name, "residues": residues, "res_edges": edges, "shape": shape,
+            "nrexcl": draw(st.sampled_from([1, 1, 2, 3]))}
 
 
 @st.composite
@@ -130,7 +132,7 @@ def moltype_atoms(mt):
 
 
 def render_moltype(mt):
-    lines = ["[ moleculetype ]", f"{mt['name']} 1", "[ atoms ]"]
+    lines = ["[ moleculetype ]", f"{mt['name']} {mt.get('nrexcl', 1)}", "[ atoms ]"]
     atoms, first = moltype_atoms(mt)
     for idx, resid, resname, at in atoms:
         mass = "" if at["mass"] is None else " " + fmt(at["mass"])
